@@ -118,6 +118,19 @@ claim('C20', 'proof',
       'Lean 4 proof (induction over schedules / program trees) + deterministic multi-thread correspondence + differential execution',
       'DESIGN.md section 5 C20')
 
+claim('C14', 'proof',
+      'Lean 4 theorems C14_* about the truncation rule as a function of the singular-value list: economy keeps all, '
+      'rank r keeps min(r, full), cutoff keeps exactly the values exceeding the cutoff (for sorted values, via the '
+      'specification of the last-index search), the three factors are cut at the same index and stay sorted, a rule '
+      'retaining nothing raises, parameter validation. Correspondence: retained rank / ValueError on exact '
+      'rational singular-value lists realised as signed-permutation diagonal matrices. Partial: that LAPACK returns a '
+      'valid SVD and Eckart-Young optimality are NOT proved - the oracle validates orthonormality, ordering, leading '
+      'triplets and best-approximation error against numpy on every case.',
+      'Lean kernel + standard axioms + Mathlib order lemmas on Rat; scipy.linalg.svd (LAPACK) and optht are trusted and '
+      'numerically validated; the model says "opaque" for the two optimal-hard-threshold methods.',
+      'Lean 4 proof of the rank rule + exact correspondence; numeric validation of the SVD factors (partial)',
+      'DESIGN.md section 5 C14')
+
 ALL = [f'C{i:02d}' for i in range(1, 21)]
 
 
